@@ -159,6 +159,8 @@ class Normalizer:
     def assume_positive(self, expr):
         """declared fact  expr > 0  (a contract precondition): fixes the sign of its one factor of unknown sign"""
         nb = self.norm(expr)
+        if not hasattr(self, 'posfacts'): self.posfacts = []
+        self.posfacts.append(nb)
         coeff, fl = self._factor_all(nb)
         sign = 1 if coeff > 0 else -1
         unknown = []
@@ -237,7 +239,14 @@ class Normalizer:
                 return r
             except Undecided:
                 xc = sp.cancel(x)
-                return self.fsym(sp.Pow(self.orig(sp.factor(nb)), xc))
+                # a base declared positive as a whole (contract precondition) whose factors have no individual sign: b > 0 => b^x > 0
+                pos = False
+                for A_ in getattr(self, 'posfacts', ()):
+                    try:
+                        r_ = sp.cancel(sp.together(nb / A_))
+                        if r_.is_Rational and r_ > 0: pos = True; break
+                    except Exception: pass
+                return self.fsym(sp.Pow(self.orig(sp.factor(nb)), xc), **({'positive': True} if pos else {}))
         if isinstance(e, sp.exp): return self.nexp(e.args[0])
         if isinstance(e, sp.log): return self.nlog(e.args[0])
         if isinstance(e, (sp.sin, sp.cos)): return self.ntrig(e)
@@ -718,6 +727,73 @@ def sample_points(symbols, hyps, n, seed=0, witness=None, tries=4000, ranges=Non
                 ok = False; break
         if ok: pts.append(pt)
     return pts
+
+
+def _margins(goal):
+    """goal -> list of expressions m_i such that the goal is false where some m_i < 0 (relational goals and conjunctions of them)"""
+    if isinstance(goal, sp.And):
+        out = []
+        for a in goal.args:
+            m = _margins(a)
+            if m is None: return None
+            out += m
+        return out
+    if isinstance(goal, sp.Basic) and goal.is_Relational:
+        op = goal.rel_op
+        if op in ('>', '>='): return [goal.lhs - goal.rhs]
+        if op in ('<', '<='): return [goal.rhs - goal.lhs]
+    return None
+
+
+def descend_search(symbols, hyps, goal, seed=0, ranges=None, starts=6, steps=600, time_cap=25.0):
+    """directed counterexample search: from admissible sample points, descend the goal's margin while staying inside the hypotheses
+    (float arithmetic); a point with negative margin is returned only after exact re-evaluation of hypotheses and goal.
+    Finds violations confined to thin regions that rejection sampling misses.  Returns a point dict or None."""
+    import math
+    ms = _margins(goal)
+    if not ms: return None
+    if any(isinstance(h, sp.Basic) and h.is_Relational and h.rel_op == '==' for h in hyps): return None
+    symbols = sorted(symbols, key=lambda s_: s_.name)
+    if any(s_.is_integer for s_ in symbols): return None
+    fast = [_fast_cond(h, symbols) for h in hyps]
+    if any(f is None for f in fast): return None
+    t_end = time.time() + time_cap
+    pts = sample_points(set(symbols), list(hyps), starts, seed=seed, ranges=ranges, tries=2000)
+    if not pts: return None
+    rnd = random.Random(seed + 17)
+    for m in ms:
+        try: g = sp.lambdify(symbols, m, modules=['math'])
+        except Exception: continue
+        def val(v):
+            try:
+                d = g(*v)
+                if isinstance(d, complex) or d != d: return None
+                return float(d)
+            except (ValueError, ZeroDivisionError, OverflowError, TypeError):
+                return None
+        for pt in pts:
+            v = [float(pt[s_]) for s_ in symbols]; cur = val(v)
+            if cur is None: continue
+            step = 0.2
+            for it in range(steps):
+                if time.time() > t_end: return None
+                w = list(v)
+                for i, s_ in enumerate(symbols):
+                    if rnd.random() < 0.5: continue
+                    d_ = rnd.gauss(0, step)
+                    w[i] = v[i] * math.exp(d_) if (s_.is_positive or s_.is_negative) else v[i] + d_ * max(1.0, abs(v[i]))
+                    if ranges and s_ in ranges: w[i] = min(max(w[i], ranges[s_][0]), ranges[s_][1])
+                if not all(f(w) for f in fast): step = max(step * 0.9, 1e-4); continue
+                nv = val(w)
+                if nv is None or nv >= cur: step = max(step * 0.95, 1e-4); continue
+                v, cur = w, nv; step = min(step * 1.3, 0.5)
+                if cur < 0:
+                    # push a little further inside the violating region, then confirm exactly on a rational point
+                    cand = {s_: sp.Rational(repr(round(x_, 6))) if abs(x_) > 1e-3 else sp.Rational(repr(float('%.6g' % x_))) for s_, x_ in zip(symbols, v)}
+                    try:
+                        if all(eval_cond(h, cand) for h in hyps) and not eval_cond(goal, cand): return cand
+                    except Exception: pass
+    return None
 
 
 def refute(e, points, prec=40, tol=1e-18):
